@@ -23,6 +23,8 @@ m("c01-out-c-d-sends-e",["C01","C05"],"op_inout.go","cpu.ioOut(cpu.BC.Lo, cpu.DE
 m("c01-neg-rename-refactor",["C01","C02"],"op_ctrl.go","\tr := ^a + 1\n","\tr := 0 - a\n",expect="silent",note="behaviour-preserving reformulation of NEG")
 m("c01-addrOff-refactor",["C01","C04","C05"],"cpu.go","return addr + uint16(int16(int8(off)))","if off < 0x80 {\n\t\treturn addr + uint16(off)\n\t}\n\treturn addr + uint16(off) - 0x100",expect="silent",note="equivalent displacement arithmetic")
 m("c01-inc-bc-16bit-refactor",["C01","C03"],"op_arith16.go","\tcpu.BC.Lo++\n\tif cpu.BC.Lo == 0 {\n\t\tcpu.BC.Hi++\n\t}","\tcpu.BC.SetU16(cpu.BC.U16() + 1)",expect="silent",note="split-byte INC BC replaced by a 16-bit add")
+m("c14-step-halt-fastpath",["C14","C01","C05","C06"],"cpu.go","\t// execute an op-code.\n\tcpu.executeOne()","\tif cpu.HALT && cpu.Memory.Get(cpu.PC) == 0x76 {\n\t\treturn\n\t}\n\tcpu.executeOne()",note="a Step spent halted no longer runs the decoder: R stops counting, and Step reads memory itself")
+m("c01-step-noop-while-halted",["C01","C14"],"cpu.go","\t// execute an op-code.\n\tcpu.executeOne()","\tif cpu.HALT {\n\t\treturn\n\t}\n\tcpu.executeOne()",note="Step is a no-op while the HALT indication is set, whatever PC points at")
 # ---- C02
 m("c02-dec-h-mask",["C02","C01"],"accum.go","if r&0x0f == 0x0f {\n\t\tor |= maskH\n\t}\n\tif a == 0x80","if r&0x0f == 0x0e {\n\t\tor |= maskH\n\t}\n\tif a == 0x80")
 m("c02-and-drops-h",["C02"],"accum.go","\tif and {\n\t\tor |= maskH\n\t}\n","")
